@@ -34,6 +34,8 @@ def _scale(n):
 def determinism_selfcheck(prop, seed, idxs, records):
     """Re-execute sampled runs in a fresh interpreter under another PYTHONHASHSEED and with
     one worker; their digests must equal this process's."""
+    idxs = [i for i in idxs if not any(r["i"] == i and r.get("cls") == "hang_suspect"
+                                       for r in records)]
     want = {r["i"]: (r["digest"] if prop == "C19" else [x["digest"] for x in r["runs"]])
             for r in records if r["i"] in set(idxs)}
     rc, out, err = fresh_interpreter([prop, "--digests", ",".join(str(i) for i in idxs)],
@@ -68,7 +70,7 @@ def main_c19(tier):
     n = _scale(cfg["runs"])
     say("C19 tier=%s VERIF_SEED=%d runs=%d repo=%s" % (tier, seed, n, REPO))
     recs = []
-    for part in pmap(dc.c19_chunk, [(seed, a, b) for a, b in chunks(n, 25 if tier == "quick" else 100)]):
+    for part in pmap(dc.c19_chunk, [(seed, a, b) for a, b in chunks(n, 100)]):
         recs.extend(part)
     # ---- exhaustive prefix sweep (thorough)
     sweep_recs = []
@@ -78,7 +80,7 @@ def main_c19(tier):
         mcs = dc.minimal_cases()
         for ci, c in enumerate(mcs):
             L = len(c.data)
-            stride = 1 if L <= 8192 else 16
+            stride = 1 if L <= 9000 else 16
             step = max(64, (L // 48) // stride * stride or stride)
             for a in range(0, L + 1, step):
                 tasks.append((ci, a, min(L + 1, a + step), stride))
@@ -150,6 +152,7 @@ def main_c19(tier):
     probes = {}
     for r in recs:
         probes[r["hdr_where"]] = probes.get(r["hdr_where"], 0) + 1
+    probes["hang_suspect_runs_cut_short"] = sum(1 for r in recs if r["cls"] == "hang_suspect")
     probes["max_ignore_path_taken"] = sum(1 for r in recs if r["tool"] == "maxtoppm" and r["ignore"])
     probes["max_removal_path_taken"] = sum(1 for r in recs if r["tool"] == "maxtoppm" and r["removed"])
     probes["damaged_byte_consumed"] = sum(1 for r in recs if r["dmg_consumed"])
